@@ -94,11 +94,11 @@ def quaternion_from_two_vectors_around_axis(p1, p2, axis):
         angle *= -1
     return R.from_quat([*(axis*np.sin(-angle / 2)), np.cos(-angle/2)])
 
-def guess_elements_from_masses(masses, max_delta=1e-2):
+def guess_elements_from_masses(masses, max_delta=0.1):
     def find_element(elmass):
-        for sym, mass in ATOMIC_MASSES.items():
-            if elmass - mass < max_delta:
-                return sym
+        sym, mass = min(ATOMIC_MASSES.items(), key=lambda kv: abs(elmass - kv[1]))
+        if abs(elmass - mass) < max_delta:
+            return sym
         raise Exception("no element matching mass %8.5f in elements list. Please add one?")
 
     return [find_element(m) for m in masses]
